@@ -64,13 +64,20 @@ enum Exec {
     Panicked(String),
 }
 
+thread_local! {
+    /// callee-saved host registers that translated code returned changed (bitmask), for the last engine-level execution
+    static CLOBBERED: std::cell::Cell<u64> = std::cell::Cell::new(0);
+}
+
 fn exec(m: &mut dyn Machine, mode: i64, jit: bool) -> Exec {
     let r = std::panic::catch_unwind(std::panic::AssertUnwindSafe(|| {
         if mode == 1 {
             m.run_code_block();
             0
         } else if jit {
-            m.engine_jit_block()
+            let (status, bad) = m.engine_jit_block_checked();
+            CLOBBERED.with(|c| c.set(bad));
+            status
         } else {
             m.engine_interp_block()
         }
@@ -466,8 +473,18 @@ impl Scenario for BlockLockstep {
                     let bank_before = i.rom_bank();
                     let hit = j.jit_lookup(before.ip as usize);
                     j.trace_start();
+                    CLOBBERED.with(|c| c.set(0));
                     let ej = exec(j, mode, true);
                     let tj = j.trace_take();
+                    let clobbered = CLOBBERED.with(|c| c.get());
+                    if clobbered != 0 && !focus_c02 {
+                        let names: Vec<&str> = ["rbx", "rbp", "r12", "r13", "r14", "r15"].iter().enumerate().filter(|(k, _)| clobbered & (1 << k) != 0).map(|(_, n)| *n).collect();
+                        out.push(Violation::new("C01", format!("C01/host-registers-clobbered/{}", names.join("+")), format!("op {}: translated code returned with callee-saved host register(s) {} changed (the host process is not intact)", opi, names.join(", "))));
+                        return out;
+                    }
+                    if mode == 0 {
+                        ctx.cov.hit("probe.calls_with_canaries_in_callee_saved_registers");
+                    }
                     i.trace_start();
                     let ei = exec(i, mode, false);
                     let ti = i.trace_take();
